@@ -4,6 +4,7 @@
 -/
 import TPV.Props.C10
 import Mathlib.MeasureTheory.Measure.Haar.InnerProductSpace
+import Mathlib.Probability.ConditionalProbability
 
 namespace TPV.Geom
 open MeasureTheory Set Metric
@@ -453,5 +454,72 @@ theorem triDensityGrid_length_le (n n1 n2 : ℕ) :
   exact Nat.min_le_left _ _
 
 example : (triDensityGrid 5 3 3).length = 5 ∧ (triGrid 3 3).length = 6 := by decide +kernel
+
+/-! ## 4. rejection-based density sampling in expectation (pure measure identities; that the proposals ARE
+    uniform and that rejection is conditioning is C11: `rejection_uniform`, `par_law`, …) -/
+
+/-- expected number of accepted proposals: `n` independent proposals with law `ν`, acceptance region `B`:
+    `E[#{i | Xᵢ ∈ B}] = n · ν(B)` -/
+theorem expected_accepted {Ω : Type*} [MeasurableSpace Ω] (ν : Measure Ω) [IsProbabilityMeasure ν]
+    (B : Set Ω) (hB : MeasurableSet B) (n : ℕ) :
+    ∫⁻ ω : Fin n → Ω, ∑ i, B.indicator (fun _ => (1 : ENNReal)) (ω i) ∂(Measure.pi fun _ : Fin n => ν) = n * ν B := by
+  have hm : Measurable (B.indicator (fun _ => (1 : ENNReal))) := measurable_const.indicator hB
+  have hsum := lintegral_finsetSum (μ := Measure.pi fun _ : Fin n => ν) Finset.univ
+    (f := fun (i : Fin n) (ω : Fin n → Ω) => B.indicator (fun _ => (1 : ENNReal)) (ω i))
+    (fun i _ => hm.comp (measurable_pi_apply i))
+  rw [hsum]
+  have h1 : ∀ i : Fin n, ∫⁻ ω : Fin n → Ω, B.indicator (fun _ => (1 : ENNReal)) (ω i) ∂(Measure.pi fun _ : Fin n => ν) = ν B := by
+    intro i
+    rw [(measurePreserving_eval (μ := fun _ : Fin n => ν) i).lintegral_comp hm]
+    exact lintegral_indicator_one hB
+  simp [h1]
+
+/-- **rejection-based density sampling, in expectation**: `n` proposals uniform on `A` (law `μ[·|A]`, which is
+    what C11 proves the primitives' samplers produce), kept when they fall into `B`:
+    `E[#kept] = n · μ(A ∩ B)/μ(A)` -/
+theorem expected_accepted_uniform {Ω : Type*} [MeasurableSpace Ω] (μ : Measure Ω) (A B : Set Ω)
+    (hA : MeasurableSet A) (hB : MeasurableSet B) (h0 : μ A ≠ 0) (hfin : μ A ≠ ⊤) (n : ℕ) :
+    ∫⁻ ω : Fin n → Ω, ∑ i, B.indicator (fun _ => (1 : ENNReal)) (ω i)
+        ∂(Measure.pi fun _ : Fin n => ProbabilityTheory.cond μ A) = n * ((μ A)⁻¹ * μ (A ∩ B)) := by
+  have := ProbabilityTheory.cond_isProbabilityMeasure_of_finite h0 hfin
+  rw [expected_accepted _ B hB n, ProbabilityTheory.cond_apply hA]
+
+/-- with `n = ⌈d·|A|⌉` proposals the expected number of kept points is `d·|A ∩ B|` up to the rounding of `n`:
+    `d·c ≤ n·c/a ≤ d·c + 1` for `a = |A| > 0`, `0 ≤ c = |A ∩ B| ≤ a` -/
+theorem expected_count_density (d a c : ℝ) (n : ℤ) (ha : 0 < a) (hc0 : 0 ≤ c) (hca : c ≤ a)
+    (hn1 : d * a ≤ n) (hn2 : (n : ℝ) - 1 < d * a) :
+    d * c ≤ n * c / a ∧ n * c / a ≤ d * c + 1 := by
+  have hq0 : 0 ≤ c / a := div_nonneg hc0 ha.le
+  have hq1 : c / a ≤ 1 := (div_le_one ha).2 hca
+  have e : (n : ℝ) * c / a = n * (c / a) := by ring
+  have e2 : d * c = d * a * (c / a) := by field_simp
+  rw [e, e2]
+  constructor
+  · exact mul_le_mul_of_nonneg_right hn1 hq0
+  · nlinarith
+
+theorem stdTri_subset_square : stdTri ⊆ Icc (0 : Fin 2 → ℝ) 1 := by
+  rintro q ⟨h0, h1, h2⟩
+  refine ⟨fun i => ?_, fun i => ?_⟩ <;> fin_cases i <;> simp <;> linarith
+
+/-- the triangle's density sampler: `2n` uniform proposals in the unit square of barycentric coordinates, those
+    in the (closed) standard triangle are kept — `n` points in expectation, i.e. `ceil(d·area)` -/
+theorem tri_expected_count (n : ℕ) :
+    ∫⁻ ω : Fin (2 * n) → (Fin 2 → ℝ), ∑ i, stdTri.indicator (fun _ => (1 : ENNReal)) (ω i)
+        ∂(Measure.pi fun _ : Fin (2 * n) => ProbabilityTheory.cond μL (Icc (0 : Fin 2 → ℝ) 1)) = n := by
+  have hsq : μL (Icc (0 : Fin 2 → ℝ) 1) = 1 := by simp [Real.volume_Icc_pi]
+  rw [expected_accepted_uniform μL _ _ measurableSet_Icc stdTri_compact.isClosed.measurableSet (by simp [hsq]) (by simp [hsq]),
+    inter_eq_self_of_subset_right stdTri_subset_square, stdTri_volume, hsq]
+  simp only [inv_one, one_mul, Nat.cast_mul, Nat.cast_ofNat]
+  rw [mul_comm (2 : ENNReal), mul_assoc, show (2 : ENNReal) * ENNReal.ofReal (1 / 2) = 1 by
+    rw [show (2 : ENNReal) = ENNReal.ofReal 2 by simp, ← ENNReal.ofReal_mul (by norm_num)]; norm_num]
+  simp
+
+example : ∫⁻ ω : Fin 10 → ℝ, ∑ i, (Icc (1:ℝ) 3).indicator (fun _ => (1 : ENNReal)) (ω i)
+      ∂(Measure.pi fun _ : Fin 10 => ProbabilityTheory.cond μL (Icc (0:ℝ) 2)) = 10 * ((μL (Icc (0:ℝ) 2))⁻¹ * μL (Icc (0:ℝ) 2 ∩ Icc 1 3)) :=
+  expected_accepted_uniform μL _ _ measurableSet_Icc measurableSet_Icc (by simp) (by simp) 10
+
+example : (10 : ℝ) * 0.3 ≤ (12 : ℤ) * 0.3 / 1.15 ∧ ((12 : ℤ) : ℝ) * 0.3 / 1.15 ≤ 10 * 0.3 + 1 :=
+  expected_count_density 10 1.15 0.3 12 (by norm_num) (by norm_num) (by norm_num) (by norm_num) (by norm_num)
 
 end TPV.Geom
